@@ -391,15 +391,19 @@ Definition tree_tok (t : tok) : bool :=
   tok_eqb t EQUAL || tok_eqb t NUMERIC.
 
 (** "for tok4 != ENDOFCOMMAND { if not a tree token: break; tree += lit4; scan }":
-    [inl tree] when the ";" was reached, [inr tt] when another token stopped the loop *)
-Fixpoint tree_tokens (fuel : nat) (acc : string) (t : tok) (l : string) (s : string)
-  : run (string + unit) :=
+    [inl tree] when the ";" was reached ([tree] = the literals concatenated in order),
+    [inr tt] when another token stopped the loop *)
+Fixpoint tree_tokens (fuel : nat) (t : tok) (l : string) (s : string) : run (string + unit) :=
   match fuel with
   | O => OutOfFuel
   | S f =>
-    if tok_eqb t ENDOFCOMMAND then Ret (inl acc) None s
+    if tok_eqb t ENDOFCOMMAND then Ret (inl "") None s
     else if negb (tree_tok t) then Ret (inr tt) None s
-    else let '(t', l', r) := scan_iw s in tree_tokens f (acc ++ l) t' l' r
+    else let '(t', l', r) := scan_iw s in
+         match tree_tokens f t' l' r with
+         | Ret (inl tr) e r' => Ret (inl (l ++ tr)) e r'
+         | x => x
+         end
   end.
 
 (** state of parseTrees: tree names and strings (in order), the parser's translation table
@@ -448,7 +452,7 @@ Fixpoint parse_trees (fuel : nat) (st : trees_st) (err : option string) (s : str
           match start with
           | Ret _ (Some e) r5 => Ret st (Some e) r5
           | Ret (t5, l5) None r5 =>
-            match tree_tokens f "" t5 l5 r5 with
+            match tree_tokens f t5 l5 r5 with
             | Ret (inl tr) _ r6 =>
               parse_trees f (mkTS (tnames st ++ [l2]) (tstrings st ++ [tr]) (ttable st)) err r6
             | Ret (inr _) _ r6 => Ret st (Some "Expecting ';' after 'TREE name = tree'") r6
